@@ -45,7 +45,7 @@ static void * node(void * a) {
   int r = myth_get_worker_num(); if (r < 0 || r >= gW) bad_rank = r + 1000;
   if (d <= 0) return leaf((void *)1);
   myth_thread_t t[3]; for (int i = 0; i < 3; i++) t[i] = myth_create(node, (void *)(d - 1));
-  for (int i = 0; i < 3; i++) myth_join(t[i], 0);
+  for (int i = 0; i < 3; i++) Z0(myth_join(t[i], 0));
   return a;
 }
 
@@ -104,7 +104,7 @@ void scen_c15_env(mt_case * c) {
   int ncpu = (int)sysconf(_SC_NPROCESSORS_ONLN);
   int base = count_os_threads();
   if (!implicit) myth_init();
-  else { myth_thread_t t = myth_create(leaf, 0); myth_join(t, 0); }
+  else { myth_thread_t t = myth_create(leaf, 0); Z0(myth_join(t, 0)); }
   int W = myth_get_num_workers(); gW = W;
   /* expected worker count */
   int k0 = kind[0];
@@ -118,8 +118,8 @@ void scen_c15_env(mt_case * c) {
   if (myth_get_worker_num() < 0 || myth_get_worker_num() >= W) mt_fail("main thread reports worker %d of %d", myth_get_worker_num(), W);
   myth_thread_t th[130]; int nt = 2 * W; if (nt > 128) nt = 128;
   for (int i = 0; i < nt; i++) th[i] = myth_create(leaf, (void *)(intptr_t)(i % 3));
-  for (int i = 0; i < nt; i++) myth_join(th[i], 0);
-  myth_thread_t t = myth_create(node, (void *)3L); myth_join(t, 0);
+  for (int i = 0; i < nt; i++) Z0(myth_join(th[i], 0));
+  myth_thread_t t = myth_create(node, (void *)3L); Z0(myth_join(t, 0));
   if (bad_rank) mt_fail("a thread observed worker index %d outside [0,%d)", bad_rank - 1000, W);
   int during = count_os_threads();
   myth_fini();
@@ -136,9 +136,9 @@ static volatile int racer_won[2], racer_back[2]; static int cyc_work_depth; stat
 static int do_work_and_fini(int expectW, int * fini_rank) {
   int W = myth_get_num_workers(); gW = W;
   if (expectW > 0 && W != expectW) mt_fail("initialised with n_workers=%d but myth_get_num_workers() == %d", expectW, W);
-  myth_thread_t t = myth_create(node, (void *)(long)cyc_work_depth); myth_join(t, 0);
+  myth_thread_t t = myth_create(node, (void *)(long)cyc_work_depth); Z0(myth_join(t, 0));
   /* block a few times so that the main thread is resumed by whichever worker finishes its child */
-  for (int i = 0; i < 4; i++) { myth_thread_t c = myth_create(leaf, (void *)3L); myth_yield(); myth_join(c, 0); }
+  for (int i = 0; i < 4; i++) { myth_thread_t c = myth_create(leaf, (void *)3L); myth_yield(); Z0(myth_join(c, 0)); }
   if (bad_rank) mt_fail("a thread observed worker index %d outside [0,%d)", bad_rank - 1000, W);
   *fini_rank = myth_get_worker_num();
   myth_fini();
@@ -187,7 +187,7 @@ void scen_c15_hist(mt_case * c) {
       myth_init();
       W = do_work_and_fini(prevW ? 0 : ncpu, &fr);
     } else if (kind == 2) {
-      myth_thread_t t = myth_create(leaf, 0); myth_join(t, 0);      /* implicit initialisation on first use */
+      myth_thread_t t = myth_create(leaf, 0); Z0(myth_join(t, 0));      /* implicit initialisation on first use */
       W = do_work_and_fini(prevW ? 0 : ncpu, &fr);
     } else {
       pthread_t p[2]; racer_won[0] = racer_won[1] = 0; racer_back[0] = racer_back[1] = 0; pthread_barrier_init(&race_bar, 0, 2);
